@@ -85,3 +85,7 @@ impl<'a> CheckParams for Grammar<'a> {
         return Ok(x as i16);
     }
 }
+
+// verification hook: harness text lives outside the repository (see MANIFEST.hooks)
+#[cfg(any(kani, sudachi_verif))]
+include!(concat!(env!("SUDACHI_VERIF_DIR"), "/util__check_params.rs"));
